@@ -96,11 +96,14 @@ PROPS['C12'] = dict(
 PROPS['C13'] = dict(
     modules=['Vivid.Props.C13', 'Vivid.Tie.Registry'],
     gens=['registry'],
-    engines=[dict(name='codec', only=r'ALLOC|PANIC|FATAL|panic', must_hit=['truncated:err', 'corrupted:err', 'corrupted:ok', 'random:err', 'write:ok', 'write:err', 'memcap:65536'])],
+    engines=[dict(name='codec', only=r'ALLOC|DEST-MODIFIED|PANIC|FATAL|panic', must_hit=['truncated:err', 'corrupted:err', 'corrupted:ok', 'random:err', 'write:ok', 'write:err', 'memcap:65536',
+                                                                                          'rfl:u64s', 'rfl:strs', 'rfl:recs', 'rfl:nested', 'rfl:rec', 'rfl-truncated:err', 'rfl-hostile:err', 'rflinto:err', 'rflinto:ok'])],
     rule=CODEC_RULE,
     trusted_base=COMMON_TRUST + ['runtime.MemStats.TotalAlloc as the allocation observation (budget 64 B per input byte + 16 MiB for the codec\'s own 65536-entry caps)'],
     assumptions=['no panic / no loop / no stack overflow are facts about the Go runtime: observed by the differential run (recover, child process), not provable in the model, whose decoder is total by construction',
-                 'allocation theorem covers successful decodes of capped schemas; allocation on failing decodes is observed by the meter'],
+                 'allocation theorem covers successful decodes of capped schemas; allocation on failing decodes is observed by the meter',
+                 'the reflective reader (Reader.Read on Go slices / structs, the API of a user CustomMessageReader) is tied for five destination types ([]uint64, []string, []struct, [][]uint16, struct with a slice field); slices whose element type encodes to zero bytes (no exported field) are outside the allocation claim: the format itself lets 4 bytes stand for any number of them',
+                 '"a failed decode leaves the previous value untouched" is a statement about Go mutation: the model states the specification (decInto) and the rflinto operation compares the real reader with it, including every backing array reachable from the old value'],
     explanation='Model decoder is a total structurally-recursive function with outcomes ok/err; theorems: prefix consumption and 4*alloc <= maxCap*consumed for capped schemas, every registered schema is capped (after the fix: commit); tie: malformed-input differential with outcome classes.',
 )
 
